@@ -818,4 +818,110 @@ theorem expand_pins2 {A : Answers} {o : Opts} {lines : List Str} {items : List I
   simp only [tableOf, denoteTable_append, List.filterMap_append, visitedT2_pins pdir env hex o ha _ _ _ 0 hok.1 hin.1,
     filterMap_toPin_inert hin.2, pinKey_fin, List.append_nil]
 
+/-! ## inexact mode: the expanded table acts as the original table with its setup lines rewritten -/
+
+theorem chainExact_den_inexact {pdir : Option Str} (env : Cond.Env) (hne : env.types.contains sExactW = false) (ind : Int)
+    (pins : List Item) {body : List Item} (hb : ∀ it ∈ body, BodyLineT.ok pdir (itemLineT pdir it) = true) :
+    denoteTable env (chainExact pdir ind pins body).abs = body.flatMap (fun it => (itemLineT pdir it).res.toList) := by
+  have hbb := bodyAbs_acts (pdir := pdir) (body.map (itemLineT pdir)) (by
+    intro b hb'; simp only [List.mem_map] at hb'; obtain ⟨it, hit, rfl⟩ := hb'; exact hb it hit)
+  simp only [chainExact, TItemT.abs, denoteTable, List.flatMap_cons, List.flatMap_nil, List.append_nil, denoteItem,
+    denoteBranches, BranchT.abs, denote_condExact, hne, List.map_nil, Option.map_some]
+  simp only [bne_self_eq_false, Bool.false_eq_true, if_false]
+  rw [hbb, filterMap_eq_flatMap, List.flatMap_map]
+
+theorem chainNot_den_inexact {pdir : Option Str} (env : Cond.Env) (hne : env.types.contains sExactW = false) (ind : Int)
+    {body : List Item} (hb : ∀ it ∈ body, BodyLineT.ok pdir (itemLineT pdir it) = true) :
+    denoteTable env (chainNot pdir ind body).abs = body.flatMap (fun it => (itemLineT pdir it).res.toList) := by
+  have hbb := bodyAbs_acts (pdir := pdir) (body.map (itemLineT pdir)) (by
+    intro b hb'; simp only [List.mem_map] at hb'; obtain ⟨it, hit, rfl⟩ := hb'; exact hb it hit)
+  simp only [chainNot, TItemT.abs, denoteTable, List.flatMap_cons, List.flatMap_nil, List.append_nil, denoteItem,
+    denoteBranches, BranchT.abs, denote_condExact, hne, List.map_nil]
+  simp only [Bool.false_bne, if_true]
+  rw [hbb, filterMap_eq_flatMap, List.flatMap_map]
+
+theorem inexactActs_orig {pdir : Option Str} {x : Item} (h : ∃ i k t, x = Item.orig i k t) :
+    (itemLineT pdir x).res.toList = inexactActs pdir x := by
+  obtain ⟨i, k, t, rfl⟩ := h; rfl
+
+theorem visitedT_den_inexact (pdir : Option Str) (env : Cond.Env) (hne : env.types.contains sExactW = false) (o : Opts)
+    (ha : o.addExactBlock = true) (ls : Option Nat) (c : CState) :
+    ∀ (vis : List (Nat × Block)) (ind : Int), (∀ it ∈ emitVisited o ls c ind vis, itemOK pdir it = true) →
+      denoteTable env (tableAbs (visitedT pdir ls c ind vis)) = (emitVisited o ls c ind vis).flatMap (inexactActs pdir) := by
+  intro vis
+  induction vis with
+  | nil => intro ind _; rfl
+  | cons ib rest ih =>
+    intro ind hok
+    obtain ⟨i, b⟩ := ib
+    unfold emitVisited at hok ⊢
+    unfold visitedT
+    by_cases hs : b.isSetup = true
+    · simp only [hs, if_true, List.mem_append] at hok
+      simp only [hs, if_true, denoteTable_cons, List.flatMap_append]
+      rw [ih ind (fun it hit => hok it (.inr hit))]
+      congr 1
+      have hsl : ∀ it ∈ emitSetupLines (ind + 1) b.lines, BodyLineT.ok pdir (itemLineT pdir it) = true := fun it hit =>
+        itemLineT_ok (hok it (.inl (by cases (ls == some i) <;> simp [emitSetup, ha, hit]))) (isGen_emitSetupLines hit)
+      have hbody : (emitSetupLines (ind + 1) b.lines).flatMap (fun it => (itemLineT pdir it).res.toList)
+          = (emitSetupLines (ind + 1) b.lines).flatMap (inexactActs pdir) :=
+        flatMap_congr' (fun x hx => inexactActs_orig (by
+          obtain ⟨l, _, rfl⟩ := emitSetupLines_orig _ _ x hx; exact ⟨_, _, _, rfl⟩))
+      have hpins : (pinItems (ind + 1) c).flatMap (inexactActs pdir) = [] :=
+        flatMap_nil' (fun x hx => by obtain ⟨n, v, _, rfl⟩ := mem_pinItems hx; rfl)
+      have hgen : ∀ t, inexactActs pdir (.gen ind t) = [] := fun _ => rfl
+      cases hl : (ls == some i) with
+      | true =>
+        simp only [setupT, if_true, chainExact_den_inexact env hne ind _ hsl, hbody]
+        simp [emitSetup, ha, List.flatMap_append, hgen, hpins]
+      | false =>
+        simp only [setupT, Bool.false_eq_true, if_false, chainNot_den_inexact env hne ind hsl, hbody]
+        simp [emitSetup, ha, List.flatMap_append, hgen]
+    · simp only [hs, Bool.false_eq_true, if_false] at hok
+      simp only [hs, Bool.false_eq_true, if_false, denoteTable_append]
+      cases he : emitPlain ind b.lines with
+      | mk its ind' =>
+        simp only [he, List.mem_append] at hok
+        have hmem : ∀ it ∈ its, it ∈ (emitPlain ind b.lines).1 := fun it hit => by rw [he]; exact hit
+        simp only [List.flatMap_append]
+        rw [ih ind' (fun it hit => hok it (.inr hit)),
+          linesT_den env (fun it hit => itemLineT_ok (hok it (.inl hit)) (isGen_emitPlain (hmem it hit))),
+          flatMap_congr' (fun x hx => inexactActs_orig (by
+            obtain ⟨i', l, _, rfl⟩ := emitPlain_orig _ _ x (hmem x hx); exact ⟨_, _, _, rfl⟩))]
+
+/-- **The expanded table, read by the table parser in inexact mode**: with `exact` not among the setup types, the reader's
+model applied to the expanded text returns what it makes of the lines of the input, in their order — the setup lines as
+rewritten, the other lines, the final block — and none of the pins. -/
+theorem expand_inexact_actions {A : Answers} {o : Opts} {lines : List Str} {items : List Item} (pdir : Option Str) (env : Cond.Env)
+    (hfl : flavorOK env.flavor = true) (hne : env.types.contains sExactW = false)
+    (h : expandItems A o lines = .ok items) (ha : o.addExactBlock = true)
+    (hok : ∀ it ∈ items, itemOK pdir it = true) (nl : Bool) :
+    TableParse.tableActions TableParse.repaired pdir env (expandedText items nl) = .ok (items.flatMap (inexactActs pdir)) := by
+  obtain ⟨st, c, vis, hr, hc, hv, rfl⟩ := expandItems_ok h
+  have hok1 : ∀ it ∈ emitVisited o st.lastSetup c 0 vis, itemOK pdir it = true := fun it hit => hok it (by simp [hit])
+  have hfin : ∀ it ∈ c.final.map Item.fin, BodyLineT.ok pdir (itemLineT pdir it) = true := fun it hit => by
+    have hio := hok it (by simp only [List.mem_append]; exact .inr hit)
+    simp only [List.mem_map] at hit
+    obtain ⟨t, _, rfl⟩ := hit
+    exact itemLineT_ok hio rfl
+  let t := visitedT pdir st.lastSetup c 0 vis ++ linesT pdir (c.final.map Item.fin)
+  have hraw : t.flatMap TItemT.rawLines = (emitVisited o st.lastSetup c 0 vis ++ c.final.map Item.fin).map renderItem := by
+    simp only [t, List.flatMap_append, visitedT_raw pdir o ha, linesT_raw, List.map_append]
+  have htok : t.all (TItemT.ok pdir) = true := by
+    simp only [t, List.all_append, Bool.and_eq_true]
+    exact ⟨visitedT_ok pdir o ha _ c _ 0 hok1, linesT_ok hfin⟩
+  have hden : denoteTable env (tableAbs t)
+      = (emitVisited o st.lastSetup c 0 vis ++ c.final.map Item.fin).flatMap (inexactActs pdir) := by
+    simp only [t, denoteTable_append, List.flatMap_append]
+    rw [visitedT_den_inexact pdir env hne o ha _ c _ 0 hok1, linesT_den env hfin]
+    congr 1
+    refine flatMap_congr' (fun x hx => ?_)
+    simp only [List.mem_map] at hx
+    obtain ⟨t', _, rfl⟩ := hx
+    rfl
+  have := C11.C11_blocks_text env hfl pdir t htok nl
+  rw [hden] at this
+  rw [← this]
+  simp only [expandedText, tableText, hraw]
+
 end EupsModel.ExpandTable
